@@ -93,4 +93,11 @@ META = {
                     "knot, local support (intervals outside i-K..i bit-equal after moving control point i), reproduction of constants with zero "
                     "derivatives, left-equivariance; ASan+UBSan watch the float->int64 interval index and the drop/take windows.",
             "note": _ALG_NOTE, "technique": "runtime monitoring: reference-model oracle + invariant monitors (continuity, locality, equivariance), ASan/UBSan"},
+    "C12": {"text": "Exploration over histories: random programs (1..12 operations) of constructors, +=, operator+, concat_global and crop over a register "
+                    "file of splines; each library object is shadowed by an executable model (expression tree evaluated by the specification in long "
+                    "double); after every operation value/velocity/acceleration are compared at 0, t_max, outside, random times, every knot and knot "
+                    "+- 1 ulp, together with t_max, size, start, end, zero derivatives outside, FixedCubic's end conditions and arclength (commutative groups).",
+            "note": "At junctions (within 1e-9 T) the specification is two-valued (concat_global jumps, crop boundaries on knots, zero-length operands): any "
+                    "one-sided limit of the model is accepted for the value and derivatives are not judged there. Sampled histories only.",
+            "technique": "runtime monitoring: history + executable model (shadow expression tree in long double), ASan/UBSan"},
 }
